@@ -289,7 +289,7 @@ CHECKS = {
            "builds from it exactly the tree that was written minus the members left out; every string AppendString writes and every integer AppendInt/AppendUint writes is "
            "such a leaf (from the C17 / C16 theorems over the translated tables). (2) for every width and every integer, the integer decoder reads AppendInt's / AppendUint's "
            "text back as the same integer. (3) for every byte string, the string decoder reads AppendString's literal back as the same string. (4) TYPED round trip: for "
-           "every type of the modelled fragment (bool, integers, strings, pointers, slices, arrays, string-keyed maps, structs, []byte; Model/EncTyped.v = what Marshal writes, "
+           "every type of the modelled fragment (bool, integers, strings, pointers, slices, arrays, string- and integer-keyed maps (keys printed by the integer printer, parsed as ParseInt / ParseUint do), structs, []byte; Model/EncTyped.v = what Marshal writes, "
            "Model/Decode.v = what Unmarshal does, both run beside the implementation: ops c01.typed, c02.dec) and every round-trippable value, the text Marshal writes is one "
            "RFC 8259 text, reading it gives the tree that was written, and decoding that tree into a fresh value gives the value back. Observed: generated "
            "round-trippable values of the lossless C01 grammar (extreme integers of every width, 17-digit floats, every escape class, nil/empty containers, nesting; "
